@@ -32,6 +32,9 @@ TOKEN_READERS = ["selection::read_function_name", "extractor::ExtractFromInput::
 def run(ctx, rep):
     from rules import c11 as _c11
     _c11.get_pure(rep, ctx.lib)
+    # bindings made by --set are in scope for every option: the --set stage is outermost (shared with C03)
+    from rules import pipeline_rules as _P
+    _P.order(rep, ctx.lib)
     lib = ctx.lib
     cg = ctx.cg
     # ------------------------------------------------------------ ONE-READER
